@@ -65,10 +65,13 @@ CHECKS = {
     },
     "C03": {
         "level": "exploration", "floor": 20,
-        "rule": "engine histories (profiles content/general/lowlevel/long): after every commit -> Some on a replica that is not behind, a fresh Melda::new on the same storage must show identical objects/winners/conflicts/revision sets/document/heads/blocks; "
+        "rule": "engine histories (profiles content/general/lowlevel/long; memory backend, plus the directory backend in quick and Deflate-over-directory / Brotli-over-SQLite in thorough): after every commit -> Some on a replica that is not behind, a fresh Melda::new on the same storage must show identical objects/winners/conflicts/revision sets/document/heads/blocks; "
                 "reopen ops compare with the last clean state. non-trivial = the history committed >=2 revisions of one object in one commit, or its first commit carried an update record." + DISTINCT,
         "assumptions": ASSUME_COMMON,
-        "jobs": [engine("content", "content", "C03", (1600, 60000)), engine("general", "general", "C03", (800, 30000)), engine("lowlevel", "lowlevel", "C03", (240, 12000)), engine("long", "long", "C03", (48, 1600))],
+        "jobs": [engine("content", "content", "C03", (1600, 60000)), engine("general", "general", "C03", (800, 30000)), engine("lowlevel", "lowlevel", "C03", (240, 12000)), engine("long", "long", "C03", (48, 1600)),
+                 engine("content-dir", "content", "C03", (96, 4000), args={"backend": "fs"}),
+                 engine("content-dir-deflate", "content", "C03", (0, 3000), args={"backend": "fs+flate"}, tier="thorough"),
+                 engine("content-sqlite-brotli", "content", "C03", (0, 3000), args={"backend": "sqlite+brotli"}, tier="thorough")],
     },
     "C04": {
         "level": "exploration", "floor": 20,
